@@ -1,6 +1,7 @@
 package detectsim
 
 import (
+	"encoding/hex"
 	"encoding/json"
 	"fmt"
 	"io"
@@ -666,6 +667,28 @@ func TestBatch(t *testing.T) {
 			for pos, g := range perm {
 				owner[g] = pos % job.N
 			}
+		}
+		if job.Mode == "race" && job.Prop == "C14" {
+			// the monitor's cases for this property: the Fast workflows with the
+			// real tests on real threads, on stuck and short-cycle sources - there
+			// nearly every item of every sample fails, so whatever the workers do
+			// on their failure branch they all do at once. Nothing else of the
+			// plan is repeated here.
+			pr := simctl.NewRand(simctl.Mix(job.Seed, 0xc140+uint64(job.I)))
+			sts := []StreamSpec{{Kind: "const", Byte: 0x00}, {Kind: "const", Byte: 0xff}, {Kind: "const", Byte: []int{0x55, 0x01, 0xaa, 0x80}[pr.Intn(4)]},
+				{Kind: "periodic", Period: hex.EncodeToString([]byte{byte(pr.Intn(256)), byte(pr.Intn(256)), byte(pr.Intn(256)), 0, 0, 0, 0})}}
+			for k, st := range sts {
+				c := RunConfig{Prop: job.Prop, Workflow: WPeriodFast, Workers: 0, Policy: genPolicy(pr, 100),
+					Stream: st, Chunk: ChunkSpec{Kind: "full"}, Fault: FaultSpec{Kind: "none"}, Runners: RunnerSpec{Mode: "real", Lockstep: k%2 == 1}, ReadYield: 1, Note: "race-monitor-real-runners"}
+				vs, o := r.evaluate(&c)
+				res.Cases++
+				res.Probes["race-monitor-real-runner-run:"+c.Workflow]++
+				r.note(o)
+				for _, viol := range vs {
+					r.report(&c, -1-k, viol, o)
+				}
+			}
+			plan = nil
 		}
 		for idx := range plan {
 			if owner[idx/G] != job.I {
